@@ -119,6 +119,12 @@ func typeMethods(repo, mod string, consts map[string]string) map[string]string {
 	return out
 }
 
+// setters of the state the fee / freeze / weak-network rules read
+var writerSel = map[string]bool{"SetTokenBlackWhites": true, "AddTokensToBlacklist": true, "RemoveTokensFromBlacklist": true,
+	"AddTokensToWhitelist": true, "RemoveTokensFromWhitelist": true, "UpsertTokenInfo": true, "DeleteTokenInfo": true,
+	"SetExecutionFee": true, "SavePoorNetworkMessages": true, "SetSenderCoinsHistory": true, "AddExecutionStart": true,
+	"SetExecutionStatusSuccess": true, "ProcessExecutionFeeReturn": true}
+
 var callerRe = regexp.MustCompile(`\bmsg\b|\bMsg[A-Z]|Transaction\b|\btx\b|\brelay\b`)
 
 func main() {
@@ -130,12 +136,49 @@ func main() {
 	sort.Strings(mods)
 	type site struct{ mod, fn, ty, class string }
 	var sites []site
+	type writer struct{ where, fn, sel string }
+	var writers []writer
+	scanWriters := func(where string, files []string) {
+		for _, fn := range files {
+			if strings.HasSuffix(fn, "_test.go") || strings.HasSuffix(fn, ".pb.go") {
+				continue
+			}
+			fset := token.NewFileSet()
+			f, err := parser.ParseFile(fset, fn, nil, 0)
+			if err != nil {
+				continue
+			}
+			for _, d := range f.Decls {
+				fd, ok := d.(*ast.FuncDecl)
+				if !ok || fd.Body == nil {
+					continue
+				}
+				ast.Inspect(fd.Body, func(n ast.Node) bool {
+					if c, ok := n.(*ast.CallExpr); ok {
+						if sel, ok := c.Fun.(*ast.SelectorExpr); ok && writerSel[sel.Sel.Name] {
+							writers = append(writers, writer{where, fd.Name.Name, sel.Sel.Name})
+						}
+					}
+					return true
+				})
+			}
+		}
+	}
+	{
+		af, _ := filepath.Glob(filepath.Join(*repo, "app", "*.go"))
+		scanWriters("app", af)
+		for _, sub := range []string{"ante", "posthandler"} {
+			sf, _ := filepath.Glob(filepath.Join(*repo, "app", sub, "*.go"))
+			scanWriters("app/"+sub, sf)
+		}
+	}
 	for _, md := range mods {
 		mod := filepath.Base(md)
 		files, _ := filepath.Glob(filepath.Join(md, "keeper", "*.go"))
 		hf, _ := filepath.Glob(filepath.Join(md, "*.go"))
 		files = append(files, hf...)
 		sort.Strings(files)
+		scanWriters(mod, files)
 		var tm map[string]string
 		for _, fn := range files {
 			if strings.HasSuffix(fn, "_test.go") {
@@ -250,6 +293,16 @@ func main() {
 			sep = ""
 		}
 		b.WriteString(fmt.Sprintf("  (%s, %s, %s, %s)%s\n", q(s.mod), q(s.fn), q(s.ty), q(s.class), sep))
+	}
+	b.WriteString("].\n")
+	b.WriteString("(* (package, function, setter) of every call that writes the token registry, the freeze lists, the\n   execution-fee table, the allowed-message list or the feeprocessing records *)\n")
+	b.WriteString("Definition state_writers : list (string * string * string) := [\n")
+	for i, w := range writers {
+		sep := ";"
+		if i == len(writers)-1 {
+			sep = ""
+		}
+		b.WriteString(fmt.Sprintf("  (%s, %s, %s)%s\n", q(w.where), q(w.fn), q(w.sel), sep))
 	}
 	b.WriteString("].\n")
 	var es []string
